@@ -60,6 +60,8 @@ Proof.
     + reflexivity.
     + destruct (ao_cookie (authenticate lower now c u host (Sealed s) a)) as [| |s'] eqn:Eck; try reflexivity.
       apply authenticate_saved_preserves in Eck as [H1 _]. lia.
+    + destruct (ao_cookie (authenticate lower now c u host (Sealed s) a)) as [| |s'] eqn:Eck; try reflexivity.
+      apply authenticate_saved_preserves in Eck as [_ [_ [_ [_ [_ [_ [Hv _]]]]]]]. unfold s, now in *. destruct Hv; lia.
     + unfold close, s. lia.
 Qed.
 
